@@ -484,7 +484,7 @@ def mpint_pipeline(ctx, report, rule='C11.R6', signs=(1, -1)):
     report.sample({'rule': rule, 'values': len(samples), 'bit_lengths': ('every bit length 1..4129' if ctx.thorough else '1..139, 248..263, 1016..1033, 2040..2057, 4088..4105') + '; min and max value of each bit length, both signs'})
 
 
-def fixed_mpint(ctx, report, cb, pb, rule):
+def fixed_mpint(ctx, report, cb, pb, rule, negatives=True):
     """compose_mpint(value, length) / parse_mpint(name, length): big-endian, exactly ``length`` bytes, zero padded in
     front; a value that needs more bytes is refused with InvalidValue"""
     from ..miniexec import Raised, Unsupported
@@ -529,7 +529,7 @@ def fixed_mpint(ctx, report, cb, pb, rule):
                             report.add(rule, cf.construct + '@truncation', 'a value too wide for the field raises %s, not InvalidValue' % e.what)
                             return
         # negative values: the fixed-length form has no sign octet, the parser reads it as unsigned
-        for v, length in ((-1, 4), (-1024, 10), (-0x7fff, 2)):
+        for v, length in ((-1, 4), (-1024, 10), (-0x7fff, 2)) if negatives else ():
             report.count(rule)
             try:
                 wire = compose_mpint_by_ast(cb, v, 'compose_mpint', {'length': length})
@@ -547,7 +547,7 @@ def fixed_mpint(ctx, report, cb, pb, rule):
 
 # ---- R4 / R5 -------------------------------------------------------------------------------------------------------------
 
-def flags_and_timestamps(ctx, report):
+def flags_and_timestamps(ctx, report, R4='C11.R4', R5='C11.R5'):
     import itertools
     from ..miniexec import Evaluator, Native, Obj, Raised, Unsupported
     model = ctx.model
@@ -555,7 +555,7 @@ def flags_and_timestamps(ctx, report):
     need = [(pb, 'parse_numeric_flags'), (cb, 'compose_numeric_flags'), (pb, 'parse_timestamp'), (cb, 'compose_timestamp')]
     for c, n in need:
         if n not in c.methods:
-            report.error('C11.R4: %s.%s vanished' % (c.name, n))
+            report.error(R4 + ': %s.%s vanished' % (c.name, n))
             return
         report.touch(c.methods[n])
     pfl, cfl, pts, cts = (c.methods[n] for c, n in need)
@@ -592,14 +592,14 @@ def flags_and_timestamps(ctx, report):
             window = [m for m in members if (m >> shift) and (m >> shift) < (1 << (8 * size))]
             for k in range(0, min(len(window), 3) + 1):
                 for subset in itertools.combinations(window, k):
-                    report.count('C11.R4')
+                    report.count(R4)
                     me = State()
                     Evaluator({'self': me, 'values': list(subset), 'item_size': size, 'shift_right': shift}, None, None).function(cfl.node)
                     want = 0
                     for m in subset:
                         want |= m >> shift
                     if me.out != [([want], size)]:
-                        report.add('C11.R4', cfl.construct + '@encode[shift=%d]' % shift, 'the flag set %s is composed as %s, expected the OR of the members >> %d = %#x in %d byte(s)' % (
+                        report.add(R4, cfl.construct + '@encode[shift=%d]' % shift, 'the flag set %s is composed as %s, expected the OR of the members >> %d = %#x in %d byte(s)' % (
                             [hex(m) for m in subset], me.out, shift, want, size))
                         raise StopIteration
                     junk = 0x4 >> 0 if shift == 0 and size > 1 else 0      # a bit no member owns
@@ -607,13 +607,13 @@ def flags_and_timestamps(ctx, report):
                     run_parse(pfl, rd, {'name': 'f', 'size': size, 'flags_class': Flags(members), 'shift_left': shift})
                     got = rd._parsed_values.get('f')
                     if got != set(subset) or rd._parsed_length != size:
-                        report.add('C11.R4', pfl.construct + '@decode[shift=%d]' % shift, 'wire value %#x (%d bytes, shift %d) is decoded as %s with the cursor at %s; expected the members %s' % (
+                        report.add(R4, pfl.construct + '@decode[shift=%d]' % shift, 'wire value %#x (%d bytes, shift %d) is decoded as %s with the cursor at %s; expected the members %s' % (
                             want | junk, size, shift, sorted(got) if isinstance(got, set) else got, rd._parsed_length, sorted(subset)))
                         raise StopIteration
     except StopIteration:
         pass
     except (Unsupported, Raised) as e:
-        report.add('C11.R4', pfl.construct + '@tabulation', 'the flag primitives left the subset the tabulation understands: %s' % e)
+        report.add(R4, pfl.construct + '@tabulation', 'the flag primitives left the subset the tabulation understands: %s' % e)
     # ---- timestamps
     UTC = Obj(name='UTC')
 
@@ -663,32 +663,32 @@ def flags_and_timestamps(ctx, report):
         for size, ms in ((4, False), (8, False), (8, True)):
             sentinel = (1 << (8 * size)) - 1
             for seconds, millis in ((0, 0), (1, 0), (86399, 999), (1710000000, 123), (0x7fffffff, 1), (0xfffffffe, 999)):
-                report.count('C11.R5')
+                report.count(R5)
                 inst = Instant(seconds, millis if ms else 0, offset=(0, 7200, -19800)[(seconds + size) % 3])
                 me = State()
                 Evaluator({'self': me, 'value': inst, 'milliseconds': ms, 'item_size': size}, hook, names).function(cts.node)
                 want = seconds * 1000 + millis if ms else seconds
                 if me.out != [([want], size)]:
-                    report.add('C11.R5', cts.construct + '@value[%s]' % ('ms' if ms else 's'), 'the instant %d s + %d ms is composed as %s in a %d byte field, expected %d' % (seconds, millis if ms else 0, me.out, size, want))
+                    report.add(R5, cts.construct + '@value[%s]' % ('ms' if ms else 's'), 'the instant %d s + %d ms is composed as %s in a %d byte field, expected %d' % (seconds, millis if ms else 0, me.out, size, want))
                     break
                 rd = State(want)
                 Evaluator({'self': rd, 'name': 't', 'milliseconds': ms, 'item_size': size}, hook, names).function(pts.node)
                 got = rd._parsed_values.get('t')
                 if not isinstance(got, Instant) or (got.seconds, got.millis) != (seconds, millis if ms else 0) or rd._parsed_length != size:
-                    report.add('C11.R5', pts.construct + '@value[%s]' % ('ms' if ms else 's'), 'the %d byte wire value %d is parsed as %s, expected %d s + %d ms' % (
+                    report.add(R5, pts.construct + '@value[%s]' % ('ms' if ms else 's'), 'the %d byte wire value %d is parsed as %s, expected %d s + %d ms' % (
                         size, want, (getattr(got, 'seconds', got), getattr(got, 'millis', None)), seconds, millis if ms else 0))
                     break
-            report.count('C11.R5')
+            report.count(R5)
             me = State()
             Evaluator({'self': me, 'value': None, 'milliseconds': ms, 'item_size': size}, hook, names).function(cts.node)
             if me.out != [([sentinel], size)]:
-                report.add('C11.R5', cts.construct + '@sentinel', 'None ("forever") is composed as %s in a %d byte field, expected the all-ones value %#x' % (me.out, size, sentinel))
+                report.add(R5, cts.construct + '@sentinel', 'None ("forever") is composed as %s in a %d byte field, expected the all-ones value %#x' % (me.out, size, sentinel))
             rd = State(sentinel)
             Evaluator({'self': rd, 'name': 't', 'milliseconds': ms, 'item_size': size}, hook, names).function(pts.node)
             if rd._parsed_values.get('t', 'missing') is not None:
-                report.add('C11.R5', pts.construct + '@sentinel', 'the all-ones value of a %d byte field is parsed as %r, expected None' % (size, rd._parsed_values.get('t')))
+                report.add(R5, pts.construct + '@sentinel', 'the all-ones value of a %d byte field is parsed as %r, expected None' % (size, rd._parsed_values.get('t')))
     except (Unsupported, Raised) as e:
-        report.add('C11.R5', cts.construct + '@tabulation', 'the timestamp primitives left the subset the tabulation understands: %s' % e)
+        report.add(R5, cts.construct + '@tabulation', 'the timestamp primitives left the subset the tabulation understands: %s' % e)
 
 
 # ---- R7: no truncating mask in front of a width-limited write ------------------------------------------------------------
